@@ -29,7 +29,7 @@ PROPERTIES = {
         "explanation": "R-DISPATCH over (kernel, engine) resolutions and engine-module bindings; R-STABLE over argsort sites; R-PASSTHROUGH[engine]: every stage runs with the engine the user chose; R-VARSHIFT; R-PAIRS[perm]; R-LAYOUT: no flattening in memory order; R-MISSINGCODE: every code producer sends NaN/NaT labels to -1; R-UNPERMUTE: results are put back in order with the inverse permutation",
     },
     "C05": {
-        "rules": [rule_truthy, rule_fillflow, rule_parallel, rule_counter, CD.rule_identitycodes, CD.rule_labelvalue, CD.rule_missingcode, M.rule_fillwiden, CD.rule_indexer],
+        "rules": [rule_truthy, rule_fillflow, rule_parallel, rule_counter, CD.rule_identitycodes, CD.rule_labelvalue, CD.rule_missingcode, M.rule_fillwiden, CD.rule_indexer, M.rule_fillcast],
         "thorough": [selftest, seeded_regression],
         "technique": "def-use fill-family + boolean-context scan; counter-wiring table check (custom AST checker)",
         "level_text": "Static, all-paths: no fill-value-typed expression (nor the optional min_count) is ever coerced to bool, so falsy "
@@ -124,7 +124,7 @@ PROPERTIES = {
         "explanation": "R-SCANTABLE, R-STABLE, R-PROMOTE, R-PURE (the scan combine is a node of a parallel-prefix tree: it may not write into an operand another node reads), R-KINDMISSING (the 'no missing values' shortcut of fill scans fires only for kinds without a missing value)",
     },
     "C11": {
-        "rules": [M.rule_dtypetable, M.rule_finalcast, M.rule_promote, PR.rule_pairs_outinds, M.rule_reindexdtype, M.rule_subsumed, M.rule_accdtype, M.rule_finaldeps, M.rule_roundtrip, M.rule_fillwiden, rule_blockbcast, rule_arity],
+        "rules": [M.rule_dtypetable, M.rule_finalcast, M.rule_promote, PR.rule_pairs_outinds, M.rule_reindexdtype, M.rule_subsumed, M.rule_accdtype, M.rule_finaldeps, M.rule_roundtrip, M.rule_fillwiden, rule_blockbcast, rule_arity, M.rule_fillcast],
         "thorough": [selftest, seeded_regression],
         "technique": "dtype convention table; CFG must-pass-through of the final cast; access-path agreement of announced meta",
         "level_text": "Static, all-paths: blueprint dtype declarations follow the NumPy convention table, every path of the finalizer casts "
